@@ -2,8 +2,8 @@
    `code_small cs = true`): both are theorems now (Proof/A64WfProg.v) under boolean guards on the PROGRAM handed to the
    code generator (Sem/WfGuard64.v):
      labels_guard      the label texts are unambiguous (known finding label-collision-name-digits outside it)
-     imm_guard_a64     a type declares at most 1024 xtors (`ADD Xt, Xt, #4k`: a real limit of the back end); this also
-                       gives tags_i64
+     (no bound on the xtors of a type since the repair of the table dispatch: the offset 4k is synthesised in TEMP2 when it
+     does not fit the 12-bit immediate of ADD; tags_i64 - fewer than 2^61 xtors - stays a hypothesis of C07)
      reach_guard_a64   28 + cg_fine_defs 14 74 < 262143 instructions (two-weight size bound, Proof/SizeA64Fine.v): every
                        B.cond / ADR target within +-1 MiB (a real limit of the back end), and the code fits the image
    `calls_guard` follows from the linear discipline (Proof/X86WfCor.lin_check_calls_guard). *)
@@ -17,49 +17,42 @@ Import ListNotations.
 Local Open Scope list_scope.
 Open Scope Z_scope.
 
-Lemma imm_guard_tags p : imm_guard_a64 p = true -> tags_i64 p = true.
-Proof.
-  unfold imm_guard_a64, imm_guardP, tags_i64, xtors_le. intros H. apply andb_true_iff in H as [_ H].
-  rewrite forallb_forall in H. apply forallb_forall. intros d Hd. specialize (H d Hd). apply N.leb_le in H.
-  unfold A64_XTORS_MAX in H. apply Z.ltb_lt. lia.
-Qed.
-
 Theorem a64_codegen_simulates_wf p lc cs n lc' args fuel o :
   lin_check_prog p = true -> ann_check_prog p = true -> AxHeapTyping.entry_ext p = true ->
-  plain_names p = true -> plain_types p = true -> lits_i64 p = true ->
-  labels_guard p = true -> imm_guard_a64 p = true -> reach_guard_a64 p = true ->
+  plain_names p = true -> plain_types p = true -> lits_i64 p = true -> tags_i64 p = true ->
+  labels_guard p = true -> reach_guard_a64 p = true ->
   a64_compile p lc = Ok (cs, n, lc') ->
   List.length args = n -> args_i64 args = true -> heap_fits p args ->
   run_linear fuel p args = o -> snd o <> OOutOfFuel ->
   exists outer inner, fst (run_a64 outer inner cs args) = o.
 Proof.
-  intros LIN ANN EE PN PT LI LG IG RG XC.
-  apply (a64_codegen_simulates p lc cs n lc' args fuel o LIN ANN EE PN PT LI (imm_guard_tags p IG) XC).
-  - exact (a64_compile_asm_wf p lc cs n lc' LG LIN PN PT IG RG XC).
+  intros LIN ANN EE PN PT LI TG LG RG XC.
+  apply (a64_codegen_simulates p lc cs n lc' args fuel o LIN ANN EE PN PT LI TG XC).
+  - exact (a64_compile_asm_wf p lc cs n lc' LG LIN PN PT RG XC).
   - exact (a64_compile_code_small_reach p lc cs n lc' LIN RG XC).
 Qed.
 
 Corollary a64_codegen_correct_linearized_wf a lc cs n lc' args fuel o :
   prog_ok a = true ->
   AxHeapTyping.entry_ext (linearize a) = true -> plain_names (linearize a) = true -> plain_types (linearize a) = true ->
-  lits_i64 (linearize a) = true ->
-  labels_guard (linearize a) = true -> imm_guard_a64 (linearize a) = true -> reach_guard_a64 (linearize a) = true ->
+  lits_i64 (linearize a) = true -> tags_i64 (linearize a) = true ->
+  labels_guard (linearize a) = true -> reach_guard_a64 (linearize a) = true ->
   a64_compile (linearize a) lc = Ok (cs, n, lc') ->
   args_i64 args = true -> heap_fits (linearize a) args ->
   run_linear fuel (linearize a) args = o -> defined o = true ->
   exists outer inner, fst (run_a64 outer inner cs args) = o.
 Proof.
-  intros OK EE PN PT LI LG IG RG XC. pose proof (linearize_exact a OK) as LIN.
-  apply (a64_codegen_correct_linearized a lc cs n lc' args fuel o OK EE PN PT LI (imm_guard_tags _ IG) XC).
-  - exact (a64_compile_asm_wf _ lc cs n lc' LG LIN PN PT IG RG XC).
+  intros OK EE PN PT LI TG LG RG XC. pose proof (linearize_exact a OK) as LIN.
+  apply (a64_codegen_correct_linearized a lc cs n lc' args fuel o OK EE PN PT LI TG XC).
+  - exact (a64_compile_asm_wf _ lc cs n lc' LG LIN PN PT RG XC).
   - exact (a64_compile_code_small_reach _ lc cs n lc' LIN RG XC).
 Qed.
 
 (* the hypotheses are satisfiable: the two heap examples of C07 and the linearized stage outputs of the five example
    programs of C01 pass every guard *)
 Lemma hx_lin_guards_a64 :
-  labels_guard hx_lin = true /\ imm_guard_a64 hx_lin = true /\ reach_guard_a64 hx_lin = true /\
-  labels_guard hxw_lin = true /\ imm_guard_a64 hxw_lin = true /\ reach_guard_a64 hxw_lin = true.
+  labels_guard hx_lin = true /\ reach_guard_a64 hx_lin = true /\
+  labels_guard hxw_lin = true /\ reach_guard_a64 hxw_lin = true.
 Proof. vm_compute. repeat split; reflexivity. Qed.
 Lemma wf_guard_a64_examples :
   wf_guard_a64 (X86WfCor.lin_of ex_calls) = true /\ wf_guard_a64 (X86WfCor.lin_of ex_shared) = true /\
@@ -71,30 +64,51 @@ Proof. vm_compute. repeat split; reflexivity. Qed.
 Lemma hxa_simulated_wf : exists outer inner, fst (run_a64 outer inner hxa_code [3; 100]) = run_linear 2000 hx_lin [3; 100].
 Proof.
   destruct hxa_hypotheses as (H1 & H2 & H3 & H4 & H5 & HL & HT & (lc' & H6) & H7 & H8 & HA & H9).
-  destruct hx_lin_guards_a64 as (G1 & G2 & G3 & _).
+  destruct hx_lin_guards_a64 as (G1 & G3 & _).
   eapply (a64_codegen_simulates_wf hx_lin 0 hxa_code 2 lc' [3; 100] 2000); eauto.
   - eapply fits_run_sound; eauto.
   - vm_compute. discriminate.
 Qed.
 
-(* ---------- the xtor bound cannot be dropped: a type with 1026 destructors, invoke of the last one ----------
-   (the stage-level form of the finding docs/C14.md "tag dispatch immediate": `codata Big { d0, ..., d1099 }`,
-   `def use(o: Big): i64 { o.d1099 }` is accepted by the front end and `ADD X7, X7, 4396` is rejected by the assembler) *)
+(* ---------- regression: the table dispatch beyond 1023 xtors ----------
+   A type with 1026 destructors, invoke of the last one (the stage-level form of the finding "tag dispatch immediate",
+   docs/C14.md: `codata Big { d0, ..., d1099 }`, `def use(o: Big): i64 { o.d1099 }` was accepted by the front end and
+   `ADD X7, X7, 4396` rejected by the assembler).  The code generator BEFORE the repair (old_a_add_and_jump) emits
+   `ADD X5, X5, #4100` and fails asm_wf although the program satisfies every hypothesis of the theorem; the repaired one
+   synthesises the offset in X3 and passes. *)
+Definition old_a64_backend : backend acode atemp := {|
+  b_label := b_label a64_backend; b_mark := b_mark a64_backend; b_jump := b_jump a64_backend;
+  b_jump_label := b_jump_label a64_backend; b_jump_label_fixed := b_jump_label_fixed a64_backend;
+  b_jcc2 := b_jcc2 a64_backend; b_jcc1 := b_jcc1 a64_backend;
+  b_load_immediate := b_load_immediate a64_backend; b_load_label := b_load_label a64_backend;
+  b_add_and_jump := old_a_add_and_jump;
+  b_arith := b_arith a64_backend; b_mov := b_mov a64_backend; b_print := b_print a64_backend;
+  b_erase := b_erase a64_backend; b_share_n := b_share_n a64_backend; b_store := b_store a64_backend; b_load := b_load a64_backend;
+  b_contains_spill_edge := b_contains_spill_edge a64_backend;
+  b_store_temporary := b_store_temporary a64_backend; b_restore_temporary := b_restore_temporary a64_backend;
+  b_temp := b_temp a64_backend; b_return1 := b_return1 a64_backend; b_jump_length := b_jump_length a64_backend;
+  b_temporary_from_position := b_temporary_from_position a64_backend; b_tcompare := b_tcompare a64_backend |}.
+Definition old_a64_compile (p : prog) (lc : N) : Backend.res (list acode * nat * N) :=
+  Backend.rbind (compile old_a64_backend p lc) (fun c => let '(is, n, lc') := c in
+  Backend.rbind (into_aarch64_routine is n) (fun r => Backend.Ok (r, n, lc'))).
 Definition many_xtors (n : nat) : list xtorsig := map (fun k => mkx ("d"%string, N.of_nat k) []) (seq 0 n).
 Definition wide_type_prog (n : nat) : prog :=
   let big : ident := ("Big"%string, 0%N) in
   let o : ident := ("o"%string, 1%N) in
   mkp [mkd ("use"%string, 0%N) [mkb o Cns (Decl big)] (Invoke o ("d"%string, N.of_nat (n - 1)) (Decl big) [])]
       [mkt big (many_xtors n)] 1%N.
-Lemma asm_wf_xtors_needed :
+Lemma asm_wf_xtors_regression :
   let p := wide_type_prog 1026 in
-  labels_guard p = true /\ lin_check_prog p = true /\ plain_names p = true /\ plain_types p = true /\
-  imm_guardP 1026 any_lit p = true /\ imm_guard_a64 p = false /\ reach_guard_a64 p = true /\
-  exists cs n lc', a64_compile p 0 = Backend.Ok (cs, n, lc') /\
-    asm_wf cs = Some "operand not encodable in its instruction form"%string /\
-    In (ADDI (X 5) (X 5) 4100) cs.
+  wf_guard_a64 p = true /\ old_imm_guard_a64 p = false /\
+  (exists cs n lc', old_a64_compile p 0 = Backend.Ok (cs, n, lc') /\
+     asm_wf cs = Some "operand not encodable in its instruction form"%string /\
+     In (ADDI (X 5) (X 5) 4100) cs) /\
+  (exists cs n lc', a64_compile p 0 = Backend.Ok (cs, n, lc') /\ asm_wf cs = None /\
+     In (MOVZ (X 3) 4100 0) cs /\ In (ADD (X 5) (X 5) (X 3)) cs).
 Proof.
-  cbv zeta. repeat (split; [vm_compute; reflexivity|]).
-  eexists _, _, _. split; [vm_compute; reflexivity|]. split; [vm_compute; reflexivity|].
-  vm_compute. repeat (first [left; reflexivity|right]).
+  cbv zeta. split; [vm_compute; reflexivity|]. split; [vm_compute; reflexivity|]. split.
+  - eexists _, _, _. split; [vm_compute; reflexivity|]. split; [vm_compute; reflexivity|].
+    vm_compute. repeat (first [left; reflexivity|right]).
+  - eexists _, _, _. split; [vm_compute; reflexivity|]. split; [vm_compute; reflexivity|].
+    split; vm_compute; repeat (first [left; reflexivity|right]).
 Qed.
